@@ -154,6 +154,7 @@ func execDemux(e *Env, pp any) {
 		}
 	})
 	fed := 0
+	fedN := func() int { histMu.Lock(); defer histMu.Unlock(); return fed }
 	e.Go("raw.feeder", func() {
 		for i, k := range p.Seq {
 			e.Pt("feed")
@@ -162,16 +163,18 @@ func execDemux(e *Env, pp any) {
 				Body: &goatorepo.Body{Data: []byte(pl)}}) != nil {
 				return
 			}
+			histMu.Lock()
 			fed++
+			histMu.Unlock()
 		}
 	})
 	stopped := false
 	for {
 		reason := e.Drive(func() bool {
-			if p.CancelKey >= 0 && !cancelDone && fed >= p.CancelAt {
+			if p.CancelKey >= 0 && !cancelDone && fedN() >= p.CancelAt {
 				return true
 			}
-			if p.StopAt >= 0 && !stopped && fed >= p.StopAt {
+			if p.StopAt >= 0 && !stopped && fedN() >= p.StopAt {
 				return true
 			}
 			return false
